@@ -44,6 +44,8 @@
 // Everything else is a violation (`success-not-lowest*`).
 #include <omp.h>
 
+#include <cfloat>
+
 #include <Eigen/Dense>
 #include <iostream>
 #include <stdexcept>
@@ -231,6 +233,37 @@ static bool famD(const Case &c, MatrixXd &A, MatrixXd &B) {
   Eigen::SelfAdjointEigenSolver<MatrixXd> e1(A + B, Eigen::EigenvaluesOnly), e2(A - B, Eigen::EigenvaluesOnly);
   return e1.eigenvalues()(0) > 1e-6 && e2.eigenvalues()(0) > 1e-6;
 }
+// family e: large-norm operators.  kind 0/2: strictly diagonally dominant matrix (diagonal 1..m, generic dense pattern) plus a
+// uniform shift s*I; kind 1/3: graded diagonal 1 .. g (geometric), optionally shuffled.  kinds 2,3 = the same as block A of the
+// BSE form with a small B.  The wanted roots of the graded members are O(1) although max|A_ii| is 1e6 / 1e8.
+static const double SHIFTV[] = {3e4, -3e4, 3e5, -3e5, 3e6, -3e6};
+static const double GRADEV[] = {1e6, 1e8, 1e10};
+static const int NGRADE = 2;  // 1e10 is kept for --case only: there the unchanged solver stagnates at ~2e-9 and falls into the Gram-Schmidt defect (notes/C09.md)
+static bool famE(const Case &c, MatrixXd &H, bool &ham) {
+  int kind = int(c.p[0]);
+  ham = kind >= 2;
+  int m = ham ? c.n / 2 : c.n;
+  int isc = int(c.p[1]), order = int(c.p[3]);
+  VectorXd d(m);  // shifted kinds: the unshifted diagonal 1..m, graded kinds: 1 .. g geometrically (optionally shuffled)
+  for (int i = 0; i < m; i++) {
+    int pos = order ? (i * 7 + 3) % m : i;
+    d(i) = (kind % 2 == 0) ? double(pos + 1) : std::pow(GRADEV[isc], double(pos) / double(m - 1));
+  }
+  MatrixXd A = offdiag(d, 0, EPSV[c.p[2]]);
+  MatrixXd B = offdiag(d, 1, 0.05);
+  for (int i = 0; i < m; i++) B(i, i) = 0.025 * d(i) * ((i % 2) ? -1.0 : 1.0);
+  A.diagonal() = d;
+  if (kind % 2 == 0) A.diagonal().array() += SHIFTV[isc];  // uniform shift of a diagonally dominant matrix
+  if (!ham) { H = A; return true; }
+  Eigen::LLT<MatrixXd> l1(A + B), l2(A - B);
+  if (l1.info() != Eigen::Success || l2.info() != Eigen::Success) return false;
+  H.resize(2 * m, 2 * m);
+  H.topLeftCorner(m, m) = A;
+  H.topRightCorner(m, m) = B;
+  H.bottomLeftCorner(m, m) = -B;
+  H.bottomRightCorner(m, m) = -A;
+  return true;
+}
 static const long NLATD0 = 16L * 81L;
 static const long NLATD1 = 8L * 27L * 8L * 8L;
 
@@ -241,6 +274,7 @@ static bool build(const Case &c, MatrixXd &H, bool &ham) {
     case 'a': H = famA(c.n, int(c.p[0]), int(c.p[1])); return true;
     case 'b': H = famB(c.n, int(c.p[0]), int(c.p[1]), int(c.p[2])); return true;
     case 'c': H = famC(c.p[0]); return true;
+    case 'e': return famE(c, H, ham);
     case 'd': {
       MatrixXd A, B;
       if (!famD(c, A, B)) return false;
@@ -555,12 +589,18 @@ static bsx::Outcome run_case(const Case &c, bool verbose = false, const Run *giv
   const Index k = c.k;
   const double tol = TOLV[c.tol];
   const double scale = std::max(1.0, H.cwiseAbs().maxCoeff());
-  const bool dd = !ham && c.it == 50 && strictly_dd(H);  // "within the iteration limit" = the default limit
+  bool dd = !ham && c.it == 50 && strictly_dd(H);  // "within the iteration limit" = the default limit
 
   // ---- reference
   VectorXd ref;  // SYMM: all eigenvalues ascending; HAM: positive eigenvalues ascending
   double kappa = 1.0;
-  if (!ham) {
+  typedef Eigen::Matrix<long double, Eigen::Dynamic, Eigen::Dynamic> MatrixXld;
+  const bool ldref = c.fam == 'e';  // large-norm family: dense reference in long double (its error eps_ld*n*|A| stays far below tol)
+  if (!ham && ldref) {
+    Eigen::SelfAdjointEigenSolver<MatrixXld> es(H.cast<long double>(), Eigen::EigenvaluesOnly);
+    if (es.info() != Eigen::Success) return failwith("machinery-reference", "dense reference solver failed");
+    ref = es.eigenvalues().cast<double>();
+  } else if (!ham) {
     Eigen::SelfAdjointEigenSolver<MatrixXd> es(H, Eigen::EigenvaluesOnly);
     if (es.info() != Eigen::Success) return failwith("machinery-reference", "dense reference solver failed");
     ref = es.eigenvalues();
@@ -571,9 +611,19 @@ static bsx::Outcome run_case(const Case &c, bool verbose = false, const Run *giv
     MatrixXd L = llt.matrixL();
     MatrixXd S = symmetrise(L.transpose() * (A - B) * L);
     Eigen::SelfAdjointEigenSolver<MatrixXd> es(S, Eigen::EigenvaluesOnly);
-    if (es.info() != Eigen::Success || es.eigenvalues()(0) <= 0)
+    if (!ldref && (es.info() != Eigen::Success || es.eigenvalues()(0) <= 0))
       return failwith("machinery-reference", "BSE reference reduction failed");
-    ref = es.eigenvalues().cwiseSqrt();
+    if (!ldref) ref = es.eigenvalues().cwiseSqrt();
+    if (ldref) {  // the squared reduction loses the small roots of a graded operator: general solver in long double
+      Eigen::EigenSolver<MatrixXld> esl(H.cast<long double>(), false);
+      if (esl.info() != Eigen::Success) return failwith("machinery-reference", "BSE long double reference failed");
+      std::vector<double> pos;
+      for (Index i = 0; i < n; i++)
+        if (esl.eigenvalues()(i).real() > 0) pos.push_back(double(esl.eigenvalues()(i).real()));
+      std::sort(pos.begin(), pos.end());
+      if (Index(pos.size()) != m) return failwith("machinery-reference", "BSE long double reference: wrong number of positive roots");
+      ref = Eigen::Map<VectorXd>(pos.data(), m);
+    }
     // eigenvector conditioning of H (Bauer-Fike constant for the value tolerance)
     Eigen::EigenSolver<MatrixXd> ges(H);
     MatrixXd X = ges.eigenvectors().real();
@@ -586,6 +636,15 @@ static bsx::Outcome run_case(const Case &c, bool verbose = false, const Run *giv
       o.extra = "skip-illconditioned";  // (nearly) defective H: no meaningful value tolerance
       return o;
     }
+  }
+
+  // success is only demanded where a residual below tol can be resolved in double precision at all:
+  // eps * n * |wanted eigenvalue| <= tol/100 (e.g. not for |lambda| ~ 3e6 with tolerance 1e-9)
+  const bool resolvable = DBL_EPSILON * double(n) * std::max(std::fabs(ref(0)), std::fabs(ref(k - 1))) <= 0.01 * tol;
+  dd = dd && resolvable;
+  if (c.fam == 'e' && !resolvable) {  // large-norm family: such (operator, tolerance) pairs are not part of the space
+    o.extra = "skip-unresolvable";
+    return o;
   }
 
   // ---- input predicates used for narrow failure keys
@@ -623,6 +682,15 @@ static bsx::Outcome run_case(const Case &c, bool verbose = false, const Run *giv
       bool iso = true;
       for (Index t : start) iso = iso && (t == s || (H(s, t) == 0.0 && H(t, s) == 0.0));
       p_isolated = p_isolated || iso;
+    }
+    // ... or a Ritz value of the start block rounds to a diagonal entry exactly (large uniform shift)
+    if (!p_isolated && !ham) {
+      MatrixXd T0(Index(start.size()), Index(start.size()));
+      for (size_t a = 0; a < start.size(); a++)
+        for (size_t b = 0; b < start.size(); b++) T0(Index(a), Index(b)) = H(start[a], start[b]);
+      Eigen::SelfAdjointEigenSolver<MatrixXd> es0(T0, Eigen::EigenvaluesOnly);
+      for (Index j = 0; j < std::min<Index>(su, T0.rows()); j++)
+        for (Index i = 0; i < n; i++) p_isolated = p_isolated || es0.eigenvalues()(j) == H(i, i);
     }
     const bool p_eqd = has_equal_diagonal_entries(H);
     bool p_tridiag = !ham;  // banded: every iteration can only add the few rows next to the current support
@@ -688,7 +756,8 @@ static bsx::Outcome run_case(const Case &c, bool verbose = false, const Run *giv
       muW = Eigen::Map<VectorXd>(pe.data(), Index(pe.size()));
     }
   };
-  const double valtol = (ham ? 2.0 * kappa : 2.0) * tol + 1e-10 * scale;
+  // value tolerance 2 tol (x kappa in HAM) + the error of the dense reference (double: 1e-10*|A|; long double: 64 n eps_ld |A| kappa)
+  const double valtol = (ham ? 2.0 * kappa : 2.0) * tol + (ldref ? 64.0 * double(n) * double(LDBL_EPSILON) * scale * kappa : 1e-10 * scale);
   // 'u' = the k lowest roots are provably NOT all available in W, 'r' = they are (within valtol)
   auto reachflag = [&]() -> char {
     need_reach();
@@ -735,11 +804,19 @@ static bsx::Outcome run_case(const Case &c, bool verbose = false, const Run *giv
 
   // ---- residuals / norms of what was returned
   VectorXd resn(k), nrm(k);
+  double recomp = 0;
   for (Index j = 0; j < k; j++) {
     nrm(j) = V.col(j).norm();
-    resn(j) = (H * V.col(j) - th(j) * V.col(j)).norm();
+    // residual recomputed independently in long double
+    Eigen::Matrix<long double, Eigen::Dynamic, 1> vl = V.col(j).cast<long double>();
+    Eigen::Matrix<long double, Eigen::Dynamic, 1> rl = H.cast<long double>() * vl - (long double)th(j) * vl;
+    resn(j) = double(rl.norm());
+    // componentwise bound of the rounding of this recomputation: 4 n eps_longdouble * || |A||v| + |theta||v| ||
+    Eigen::Matrix<long double, Eigen::Dynamic, 1> bl = H.cast<long double>().cwiseAbs() * vl.cwiseAbs() + std::fabs((long double)th(j)) * vl.cwiseAbs();
+    recomp = std::max(recomp, 4.0 * double(n) * double(LDBL_EPSILON) * double(bl.norm()));
   }
-  const double restol = tol * (1 + 1e-6) + 1e-12 * scale;
+  // the SELECTED tolerance + 0.1 % + the rounding of the recomputation (for every operator used here < 1e-3 tol)
+  const double restol = tol * (1 + 1e-3) + recomp;
 
   if (status == "N") {
     int nflag = 0;
@@ -1152,6 +1229,39 @@ static std::vector<Block> blocks(const std::string &tier) {
                       return c; }});
     }
   }
+  // e: large-norm operators (shifted / graded diagonals), SYMM dense + matrix-free and HAM
+  for (int n : thorough ? std::vector<int>{8, 16, 40} : std::vector<int>{8, 16}) {
+    std::vector<int> ks = neigens(n, false);
+    long nk = long(ks.size());
+    for (int kind = 0; kind < 2; kind++) {
+      long nsc = kind == 0 ? 6 : NGRADE, nord = kind == 0 ? 1 : 2;
+      bl.push_back({std::string("e:") + (kind ? "graded" : "shifted") + "-n" + std::to_string(n), nsc * nord * 2 * nk * 48 * 2, [=](long i) {
+                      Case c; c.fam = 'e'; c.n = n; c.p[0] = kind;
+                      c.mf = int(i % 2); i /= 2;
+                      setopt(c, 0, int(i % 48)); i /= 48;
+                      c.k = ks[i % nk]; i /= nk;
+                      c.p[2] = i % 2; i /= 2;
+                      c.p[3] = i % nord; i /= nord;
+                      c.p[1] = i % nsc;
+                      return c; }});
+    }
+    if (n >= 16) {
+      std::vector<int> hks = neigens(n, true);
+      long nhk = long(hks.size());
+      for (int kind = 2; kind < 4; kind++) {
+        long nsc = kind == 2 ? 3 : NGRADE, nord = kind == 2 ? 1 : 2;  // HAM: positive shifts only
+        bl.push_back({std::string("e:ham-") + (kind == 3 ? "graded" : "shifted") + "-n" + std::to_string(n), nsc * nord * nhk * 48 * 2, [=](long i) {
+                        Case c; c.fam = 'e'; c.n = n; c.p[0] = kind;
+                        c.mf = int(i % 2); i /= 2;
+                        setopt(c, 0, int(i % 48)); i /= 48;
+                        c.k = hks[i % nhk]; i /= nhk;
+                        c.p[3] = i % nord; i /= nord;
+                        c.p[1] = (kind == 2) ? 2 * (i % nsc) : i % nsc;
+                        c.p[2] = 0;
+                        return c; }});
+      }
+    }
+  }
   if (thorough) {
     lattice_d1(2);
     lattice_c(2);
@@ -1230,8 +1340,8 @@ int main(int argc, char **argv) {
     bsx::contained(
         lo, hi, [&](long long j) { return run_case(decode(j * ns + a.shard)); },
         [&](long long j, const bsx::Outcome &o) {
-          if (o.extra == "skip" || o.extra == "skip-illconditioned") {
-            R.counters[o.extra == "skip" ? "skipped_not_positive_definite" : "skipped_illconditioned_bse"]++;
+          if (o.extra == "skip" || o.extra == "skip-illconditioned" || o.extra == "skip-unresolvable") {
+            R.counters[o.extra == "skip" ? "skipped_not_positive_definite" : o.extra == "skip-unresolvable" ? "skipped_tolerance_below_double_rounding_of_wanted_roots" : "skipped_illconditioned_bse"]++;
             return;
           }
           Case c = decode(j * ns + a.shard);
